@@ -75,6 +75,11 @@ add("C05", "property-based testing with a dynamic-witness oracle: generated cont
     "Sound but not complete: only fall-off paths taken by a generated call are witnessed; rejections by the (conservative) return analysis are never failures. Trusts the reference interpreter.",
     "DESIGN.md §4 C05")
 
+add("C19", "metamorphic testing: generated trivia insertion at token gaps of generated / repository / damaged programs (rapid), diagnostic positions recomputed by an independent lexer",
+    "Base texts (generated well-typed programs, the repository's .fer files, and damaged versions of both that are rejected by parser or semantic checks) are varied by inserting generated runs of spaces, line breaks (LF, CRLF), tabs and block/line comments (multi-line, non-ASCII, quote/brace content) into a generated subset of token gaps. Base and variant must agree on acceptance (type-check, wasm or native build), on the multiset of diagnostics, on every diagnostic's token (line:column recomputed from the variant text by the harness), and on the produced .wasm bytes or the printed output of both executables. Exploration.",
+    "Tokens are the lexemes of the lexical grammar (a '-' glued to a digit is part of the number literal). Lines with a tab followed by another character inside one lexeme are exempt from the column check (documented implementation quirk pinned by position_test.go); comments carrying '@' tags are left alone (doc-comment semantics); repository programs importing anything but std/io are compiled but not executed.",
+    "DESIGN.md §4 C19")
+
 def main():
     props = [json.loads(l) for l in open(os.path.join(V, "properties.jsonl"))]
     checks, na = [], []
